@@ -286,7 +286,7 @@ fn confirm_case(exe: &Path, property: &str, journal: &Path) -> (String, Option<S
             .arg(property)
             .arg("--replay")
             .arg(journal)
-            .env("XSG_CHILD_LIMITS", "1")
+            .env("XSG_CHILD_LIMITS", "60")
             .stdout(std::process::Stdio::piped())
             .stderr(std::process::Stdio::piped())
             .output()
@@ -370,6 +370,11 @@ where
         }
         // the shard died or wedged: its journal holds the case it was running
         total.add("shard_processes_that_died", 1);
+        if total.counters.get("shard_processes_that_died").copied().unwrap_or(0) > 3 {
+            // three dead shards have been examined one by one; the others are only counted
+            total.notes.push(format!("shard process {} also ended with {:?} (not re-run)", i, out.status));
+            continue;
+        }
         let hang = stdout.contains("HANG");
         let stderr_tail: String = String::from_utf8_lossy(&out.stderr).lines().rev().take(5).collect::<Vec<_>>().join(" | ");
         let case: Option<serde_json::Value> = std::fs::read_to_string(&journal).ok().and_then(|t| serde_json::from_str::<serde_json::Value>(&t).ok()).map(|v| v["case"].clone());
@@ -439,6 +444,7 @@ where
 
 /// address-space limit and no-progress watchdog of a shard / replay child
 pub fn apply_child_limits() {
+    let limit_s: u64 = std::env::var("XSG_CHILD_LIMITS").ok().and_then(|v| v.parse().ok()).unwrap_or(120);
     unsafe {
         let lim = libc::rlimit { rlim_cur: 4 << 30, rlim_max: 4 << 30 };
         libc::setrlimit(libc::RLIMIT_AS, &lim);
@@ -455,8 +461,8 @@ pub fn apply_child_limits() {
             if p != last {
                 last = p;
                 since = Instant::now();
-            } else if since.elapsed() > std::time::Duration::from_secs(120) {
-                println!("HANG no progress for 120 s");
+            } else if since.elapsed() > std::time::Duration::from_secs(limit_s) {
+                println!("HANG no progress for {} s", limit_s);
                 std::process::exit(3);
             }
         }
